@@ -721,9 +721,23 @@ func TestVerifPairing(t *testing.T) {
 			wantF.SetIdentity()
 			desc := []any{}
 			hasO, hasNeg, hasO1 := false, false, false
+			var ps, qs []wpt
 			for j := 0; j < l; j++ {
 				P, p := getP(r)
 				Q, q := getQ(r)
+				// the same point OBJECT in several terms (a caller pairing one
+				// key with several messages passes one pointer repeatedly)
+				if j > 0 && r.Intn(3) == 0 {
+					i := r.Intn(j)
+					P, p = Ps[i], ps[i]
+					lib.Count("pair:ProdPair:same-G1-object-in-two-terms")
+				}
+				if j > 0 && r.Intn(3) == 0 {
+					i := r.Intn(j)
+					Q, q = Qs[i], qs[i]
+					lib.Count("pair:ProdPair:same-G2-object-in-two-terms")
+				}
+				ps, qs = append(ps, p), append(qs, q)
 				k, _ := c13ref.GenScalar(r, R, 32)
 				k.Mod(k, R)
 				s := 1
